@@ -1,7 +1,7 @@
 """Obligations on the observer worker's loop step (ObserverWorker::tick / tick_with_deadline) — C13."""
 import re
 import z3
-from .symex import State, Sym, Obj, VecV, Ref, Unsupported
+from .symex import State, Sym, Obj, VecV, Ref, UNIT, Unsupported
 from . import pearl as P
 from . import summaries as S
 from .pearl import BV64
@@ -507,3 +507,119 @@ def send_msg_delivers(crate):
         else:
             P.cover(ex, res, o, z3.Not(running), "worker not running: nothing sent")
     return P.finish(ex, res, ["sent", "worker not running: nothing sent"])
+
+
+def observer_requests_typed(crate):
+    """C13: each request method of the Observer sends exactly one message, of its own operation type (close -> CloseActiveBlob,
+    create -> CreateActiveBlob, restore -> RestoreActiveBlob, try_update -> TryUpdateActiveBlob, force_update ->
+    ForceUpdateActiveBlob with the caller's predicate, try_dump -> TryDumpBlobIndexes, defer_dump ->
+    DeferredDumpBlobIndexes, try_fsync_data -> TryFsyncData): what process_msg_dispatch decides per type is what was asked."""
+    res = P.ObResult("observer_requests_typed")
+    want = {"close_active_blob": "CloseActiveBlob", "create_active_blob": "CreateActiveBlob", "restore_active_blob": "RestoreActiveBlob",
+            "try_update_active_blob": "TryUpdateActiveBlob", "force_update_active_blob": "ForceUpdateActiveBlob",
+            "try_dump_old_blob_indexes": "TryDumpBlobIndexes", "defer_dump_old_blob_indexes": "DeferredDumpBlobIndexes",
+            "try_fsync_data": "TryFsyncData"}
+    res.functions = ["Observer::%s (async body)" % k for k in want] + ["Msg::new"]
+    res.bounds = "one call each; send_msg replaced by its contract (send_msg_delivers)"
+    OT = crate.enums["OperationType"]
+    tq = ts = 0
+    for meth, op in want.items():
+        ex = P.mk_executor(crate, cap=2, loop_bound=3, inline=[r"^Msg::new$"])
+        st = State()
+        oc = st.new_cell(Obj("storage::observer::Observer<K>"))
+
+        def hook(ex_, st_, name, fargs, out_ty, dty):
+            if name.endswith("send_msg"):
+                st_.events.append(("await", name, fargs, UNIT))
+                return [(S.poll_ready(dty, UNIT), None)]
+            return None
+        ex.await_hook = hook
+        fn = crate.method("Observer", meth)
+        args = [Ref(oc, (), False, "&storage::observer::Observer<K>")]
+        if meth == "force_update_active_blob":
+            pred = Obj("ActiveBlobPred"); pred.fields[("ghost", "id")] = Sym(BV64(9), "u64")
+            args.append(pred)
+        outs = P.drive_async(ex, st, fn, args)
+        res.paths += len(outs)
+        for o in outs:
+            if o.status in ("infeasible", "unwind"):
+                continue
+            if o.status != "returned":
+                if not P.prove(ex, res, o, z3.BoolVal(False), "no panic in %s (%s)" % (meth, o.note)):
+                    return P.finish(ex, res, [])
+                continue
+            sends = [e for e in o.events if e[0] == "await" and e[1].endswith("send_msg")]
+            if len(sends) != 1:
+                res.status = "violated"; res.detail = "%s sends %d messages" % (meth, len(sends)); return P.finish(ex, res, [])
+            msg = sends[0][2][1]
+            if isinstance(msg, Ref):
+                msg = S.deref_val(ex, o, msg)
+            ot = msg.fields.get((None, crate.field_index("Msg", "optype"))) if isinstance(msg, Obj) else None
+            if ot is None:
+                res.status = "inconclusive"; res.detail = "message of %s not modelled" % meth; return P.finish(ex, res, [])
+            d = ex.get_discr(o, ot).t if isinstance(ot, Obj) else ot.t
+            if not P.prove(ex, res, o, d == BV64(OT[op]), "%s asks for %s" % (meth, op)):
+                return P.finish(ex, res, [])
+            pr = msg.fields.get((None, crate.field_index("Msg", "predicate")))
+            if meth == "force_update_active_blob":
+                pv = pr.fields.get(("Some", 0)) if isinstance(pr, Obj) else None
+                has = isinstance(pv, Obj) and ("ghost", "id") in pv.fields
+                if not (has and P.prove(ex, res, o, ex.get_discr(o, pr).t == BV64(1), "force_update carries the caller's predicate")):
+                    if res.status == "holds":
+                        res.status = "violated"; res.detail = "force_update_active_blob does not carry the caller's predicate"
+                    return P.finish(ex, res, [])
+            elif isinstance(pr, Obj):
+                if not P.prove(ex, res, o, ex.get_discr(o, pr).t == BV64(0), "%s carries no predicate (it always applies)" % meth):
+                    return P.finish(ex, res, [])
+            P.cover(ex, res, o, z3.BoolVal(True), "%s sent" % meth)
+        tq += ex.queries; ts += ex.solver_s
+    r = P.finish(ex, res, ["%s sent" % k for k in want])
+    r.queries, r.solver_s = tq, ts
+    return r
+
+
+def storage_background_requests(crate):
+    """C13: the public *_in_background / force_update entry points forward exactly the requests their documentation names,
+    in order: create -> [create]; close -> [close, dump old indexes]; restore -> [restore]; force_update(p) ->
+    [force_update(p), dump old indexes]."""
+    res = P.ObResult("storage_background_requests")
+    want = {"create_active_blob_in_background": ["create_active_blob"],
+            "close_active_blob_in_background": ["close_active_blob", "try_dump_old_blob_indexes"],
+            "restore_active_blob_in_background": ["restore_active_blob"],
+            "force_update_active_blob": ["force_update_active_blob", "try_dump_old_blob_indexes"]}
+    res.functions = ["Storage::%s (async body)" % k for k in want]
+    res.bounds = "one call each; Observer methods replaced by their contracts (observer_requests_typed, send_msg_delivers)"
+    tq = ts = 0
+    for meth, seq in want.items():
+        ex = P.mk_executor(crate, cap=2, loop_bound=3, inline=[])
+        st = State()
+        sc = st.new_cell(Obj("storage::core::Storage<K>"))
+        fn = crate.method("Storage", meth)
+        args = [Ref(sc, (), False, "&storage::core::Storage<K>")]
+        if meth == "force_update_active_blob":
+            pred = Obj("ActiveBlobPred"); pred.fields[("ghost", "id")] = Sym(BV64(9), "u64")
+            args.append(pred)
+        outs = P.drive_async(ex, st, fn, args)
+        res.paths += len(outs)
+        for o in outs:
+            if o.status in ("infeasible", "unwind"):
+                continue
+            if o.status != "returned":
+                if not P.prove(ex, res, o, z3.BoolVal(False), "no panic in %s (%s)" % (meth, o.note)):
+                    return P.finish(ex, res, [])
+                continue
+            got = [e[1].rsplit("::", 1)[-1] for e in o.events if e[0] == "await" and "Observer" in e[1]]
+            if got != seq and ex.feasible(o, z3.BoolVal(True)):
+                res.status = "violated"; res.detail = "%s forwards %s, documented: %s" % (meth, got, seq)
+                res.counterexample = {"method": meth, "requests": got}
+                return P.finish(ex, res, [])
+            if meth == "force_update_active_blob":
+                ev = [e for e in o.events if e[0] == "await" and e[1].endswith("Observer::force_update_active_blob")][0]
+                p = ev[2][1] if len(ev[2]) > 1 else None
+                if not (isinstance(p, Obj) and ("ghost", "id") in p.fields):
+                    res.status = "violated"; res.detail = "force_update_active_blob does not pass the caller's predicate on"; return P.finish(ex, res, [])
+            P.cover(ex, res, o, z3.BoolVal(True), "%s forwarded" % meth)
+        tq += ex.queries; ts += ex.solver_s
+    r = P.finish(ex, res, ["%s forwarded" % k for k in want])
+    r.queries, r.solver_s = tq, ts
+    return r
